@@ -822,6 +822,48 @@ fn chk_range_incl_%(t)s(a: u8, b: u8) -> bool {
     return "".join(o)
 
 
+BOXED_MATCH = """
+// matching on a boxed enum without unboxing it (`enum_boxed_match`), for enums of 1, 2, 3 and 5 variants
+#[derive(Copy, Drop)]
+enum E1 { A: felt252 }
+#[derive(Copy, Drop)]
+enum E3 { A: felt252, B: u256, C: () }
+#[derive(Copy, Drop)]
+enum E5 { A: felt252, B: u256, C: (), D: u8, E: (u8, u8) }
+enum B1 { A: Box<felt252> }
+enum B2 { Some: Box<felt252>, None: Box<()> }
+enum B3 { A: Box<felt252>, B: Box<u256>, C: Box<()> }
+enum B5 { A: Box<felt252>, B: Box<u256>, C: Box<()>, D: Box<u8>, E: Box<(u8, u8)> }
+mod x1 { #[allow(extern_outside_corelib)] pub extern fn enum_boxed_match<T>(e: Box<T>) -> super::B1 nopanic; }
+mod x2 { #[allow(extern_outside_corelib)] pub extern fn enum_boxed_match<T>(e: Box<T>) -> super::B2 nopanic; }
+mod x3 { #[allow(extern_outside_corelib)] pub extern fn enum_boxed_match<T>(e: Box<T>) -> super::B3 nopanic; }
+mod x5 { #[allow(extern_outside_corelib)] pub extern fn enum_boxed_match<T>(e: Box<T>) -> super::B5 nopanic; }
+#[inline(never)]
+fn m1(e: Box<E1>) -> felt252 { match x1::enum_boxed_match(e) { B1::A(b) => b.unbox() } }
+#[inline(never)]
+fn m2(e: Box<Option<felt252>>) -> felt252 { match x2::enum_boxed_match(e) { B2::Some(b) => b.unbox(), B2::None(_) => 1000 } }
+#[inline(never)]
+fn m3(e: Box<E3>) -> felt252 { match x3::enum_boxed_match(e) { B3::A(b) => b.unbox(), B3::B(b) => b.unbox().low.into(), B3::C(_) => 3000 } }
+#[inline(never)]
+fn m5(e: Box<E5>) -> felt252 {
+    match x5::enum_boxed_match(e) {
+        B5::A(b) => b.unbox(), B5::B(b) => b.unbox().high.into(), B5::C(_) => 5000, B5::D(b) => b.unbox().into(),
+        B5::E(b) => { let (p, q) = b.unbox(); p.into() + q.into() },
+    }
+}
+fn chk_boxed_match(x: u8) -> bool {
+    let f: felt252 = x.into();
+    let t = f * f;
+    let r1 = m1(BoxTrait::new(E1::A(f)));
+    let r2 = m2(BoxTrait::new(if x % 2 == 0 { Option::Some(f) } else { Option::None }));
+    let r3 = m3(BoxTrait::new(if x % 3 == 0 { E3::A(f) } else if x % 3 == 1 { E3::B(u256 { low: 77, high: 5 }) } else { E3::C(()) }));
+    let r5 = m5(BoxTrait::new(if x % 5 == 0 { E5::A(f) } else if x % 5 == 1 { E5::B(u256 { low: 1, high: 9 }) } else if x % 5 == 2 { E5::C(()) } else if x % 5 == 3 { E5::D(x) } else { E5::E((x, 1)) }));
+    r1 == f && r2 == (if x % 2 == 0 { f } else { 1000 }) && r3 == (if x % 3 == 0 { f } else if x % 3 == 1 { 77 } else { 3000 })
+        && r5 == (if x % 5 == 0 { f } else if x % 5 == 1 { 9 } else if x % 5 == 2 { 5000 } else if x % 5 == 3 { f } else { f + 1 }) && t == f * f
+}
+"""
+
+
 def files():
     out = []
     for n, t, mk, flags in TYPES:
@@ -836,6 +878,7 @@ def files():
     out.append(("z_bounded", BOUNDED))
     out.append(("z_circuit", circuits()))
     out.append(("z_range", ranges()))
+    out.append(("z_boxed_match", BOXED_MATCH))
     return out
 
 
